@@ -53,3 +53,15 @@ static parsec_key_t ref_make_key(const REF_TP_T *tp, int c, const parsec_assignm
 {
     (void)c; return __jdf2c_make_key_C((const parsec_taskpool_t *)tp, l);
 }
+
+/* IN side, data flows only: the unique task predecessor of (c, p).f  ->  class *pc, parameters pp[], its output flow *pf */
+static int ref_pred(const int *g, int c, const int *p, int f, int *pc, int *pp, int *pf)
+{ (void)g; (void)c; if (f == C_A && p[0] > 0) { *pc = REF_CLS_C; pp[0] = p[0] - 1; *pf = C_A; return 1; } return 0; }
+static int ref_is_ctl(int c, int f) { (void)c; return f == C_X; }
+
+/* key of instance (c, p) through the real generated make_key */
+static parsec_key_t ref_key_of(const REF_TP_T *tp, const int *g, int c, const int *p)
+{
+    if (c == 0) { __parsec_chain_C_parsec_assignment_t a = { 0 }; ref_C_fill(&a, g, p); return __jdf2c_make_key_C((const parsec_taskpool_t *)tp, (const parsec_assignment_t *)&a); }
+    return 0;
+}
